@@ -617,7 +617,7 @@ fn contains_jsonb(left: &[u8], right: &[u8]) -> Result<bool, Error> {
                         }
                         let l_val = &left[l_val_offset..l_val_offset + l_jentry.length as usize];
                         if r_jentry.type_code != CONTAINER_TAG {
-                            if !l_val.eq(r_val) {
+                            if !scalar_payload_eq(r_jentry.type_code, l_val, r_val) {
                                 return Ok(false);
                             }
                         } else if !contains_jsonb(l_val, r_val)? {
@@ -656,8 +656,31 @@ fn contains_jsonb(left: &[u8], right: &[u8]) -> Result<bool, Error> {
             }
             Ok(true)
         }
-        _ => Ok(left.eq(right)),
+        _ => {
+            let l_jentry = JEntry::decode_jentry(read_u32(left, 4)?);
+            let r_jentry = JEntry::decode_jentry(read_u32(right, 4)?);
+            if l_jentry.type_code != r_jentry.type_code {
+                return Ok(false);
+            }
+            Ok(scalar_payload_eq(
+                l_jentry.type_code,
+                &left[8..],
+                &right[8..],
+            ))
+        }
     }
+}
+
+// Scalars of the same type are equal if their payloads are identical,
+// numbers are equal if they have the same numeric value, whatever their encoding,
+// consistent with `compare` and with `contains` on `Value`.
+fn scalar_payload_eq(type_code: u32, left: &[u8], right: &[u8]) -> bool {
+    if type_code == NUMBER_TAG {
+        if let (Ok(l), Ok(r)) = (Number::decode(left), Number::decode(right)) {
+            return l == r;
+        }
+    }
+    left.eq(right)
 }
 
 fn get_jentry_by_name(
@@ -3149,7 +3172,7 @@ fn array_contains(arr: &[u8], arr_header: u32, val: &[u8], val_jentry: JEntry) -
         if jentry.type_code != val_jentry.type_code {
             continue;
         }
-        if val.eq(arr_val) {
+        if scalar_payload_eq(val_jentry.type_code, val, arr_val) {
             return true;
         }
     }
